@@ -15,6 +15,7 @@ import PV.Model.LCOM
 import PV.Model.CBO
 import PV.Model.Clone
 import PV.Model.Imports
+import PV.Model.Files
 /-!
 Line-protocol driver: runs the executable models on the cases the harness also ran on the
 implementation.  Core-only imports (links as a native executable).
@@ -437,6 +438,32 @@ def runDeps (t : Array String) : String :=
   let idg := joinWith "," ((List.range n).map fun k => toString (g.inDeg k))
   s!"{es}|{od}|{idg}|{PV.Imports.maxDepth (List.range n) adj}"
 
+/-! ### files (C18) -/
+def compsOf (s : String) : List String := if s == "-" then [] else s.splitOn "/"
+
+/-- `files recursive ninc inc… nexc exc… pre nfiles paths…` → selected spelled paths (`,`-joined, sorted) `|` selected relative paths -/
+def runFiles (t : Array String) : String :=
+  if t.size < 2 then "bad-op" else
+  let recursive := tokB t[0]!
+  let ni := tokN t[1]!
+  let inc := (List.range ni).map fun k => t.getD (2 + k) ""
+  let p1 := 2 + ni
+  let ne := tokN (t.getD p1 "0")
+  let exc := (List.range ne).map fun k => t.getD (p1 + 1 + k) ""
+  let p2 := p1 + 1 + ne
+  let pre := compsOf (t.getD p2 "-")
+  let nf := tokN (t.getD (p2 + 1) "0")
+  let tree := (List.range nf).map fun k => compsOf (t.getD (p2 + 2 + k) "-")
+  let a := ((PV.Files.collect pre tree recursive inc exc).map (joinWith "/")).toArray.qsort (· < ·)
+  let b := ((PV.Files.select tree recursive inc exc).map (joinWith "/")).toArray.qsort (· < ·)
+  s!"{joinWith "," a.toList}|{joinWith "," b.toList}"
+
+/-- `glob pattern path` → 0/1 (path `-` = empty string) -/
+def runGlob (t : Array String) : String :=
+  if t.size < 2 then "bad-op" else
+  let path := if t[1]! == "-" then [""] else t[1]!.splitOn "/"
+  if PV.Files.glob (if t[0]! == "-" then "" else t[0]!) path then "1" else "0"
+
 def step (line : String) : String :=
   let parts := (line.splitOn " ").filter (· ≠ "")
   match parts with
@@ -459,6 +486,8 @@ def step (line : String) : String :=
     | "cbo" => runCbo t
     | "clones" => runClones t
     | "imports" => runImports t
+    | "files" => runFiles t
+    | "glob" => runGlob t
     | "deps" => runDeps t
     | _ => "bad-op"
 
